@@ -219,6 +219,55 @@ def generate():
         env[n] = v
         I("provision_flag_" + n.lower(), v, f)
 
+    # ---- setup tool paths and names (C17) ----
+    f = "proxy_agent_setup/src/linux.rs"
+    for n in ("SERVICE_CONFIG_FILE_NAME", "CONFIG_FILE", "EBPF_FILE", "CONFIG_PATH", "EBPF_PATH"):
+        S("setup_" + n.lower(), rust_str(f, n), f)
+    f = "proxy_agent_shared/src/linux.rs"
+    S("shared_service_config_folder_path", rust_str(f, "SERVICE_CONFIG_FOLDER_PATH"), f)
+    S("shared_exe_folder_path", rust_str(f, "EXE_FOLDER_PATH"), f)
+    S("setup_service_name", rust_str("proxy_agent_setup/src/main.rs", "SERVICE_NAME"), "proxy_agent_setup/src/main.rs")
+    f = "proxy_agent_setup/src/setup.rs"
+    S("setup_package_folder", regex_str(f, r"fn proxy_agent_folder_in_setup\b[^}]*?\.join\(\"([^\"]+)\"\)", "package folder name"), f)
+    S("setup_exe_name", regex_str(f, r"fn proxy_agent_exe_path\b.*?#\[cfg\(not\(windows\)\)\]\s*\{\s*proxy_agent_package_dir\.join\(\"([^\"]+)\"\)", "agent executable name"), f)
+    f = "proxy_agent_setup/src/backup.rs"
+    S("setup_backup_folder", regex_str(f, r"fn proxy_agent_backup_folder\b[^}]*?\.join\(\"([^\"]+)\"\)", "backup folder name"), f)
+    S("setup_backup_package_folder", regex_str(f, r"fn proxy_agent_backup_package_folder\b[^}]*?\.join\(\"([^\"]+)\"\)", "backup package folder name"), f)
+    S("setup_logger_key", rust_str("proxy_agent_setup/src/logger.rs", "LOGGER_KEY"), "proxy_agent_setup/src/logger.rs")
+
+    # ---- disk bounds: rolling logs, event files, rule dumps (C19) ----
+    f = "proxy_agent/src/service.rs"
+    lognames = re.findall(r"RollingLogger::create_new\(\s*log_folder\.clone\(\),\s*\"([^\"]+)\"\.to_string\(\),\s*constants::MAX_LOG_FILE_SIZE,\s*constants::MAX_LOG_FILE_COUNT", strip_comments(src(f)))
+    if len(lognames) != 2:
+        raise Missing("%s: expected the two agent loggers (name, MAX_LOG_FILE_SIZE, MAX_LOG_FILE_COUNT) in setup_loggers, found %r" % (f, lognames))
+    S("agent_log_file_name", lognames[0], f)
+    S("agent_connection_log_file_name", lognames[1], f)
+    f = "proxy_agent_extension/src/constants.rs"
+    S("ext_handler_log_file", rust_str(f, "HANDLER_LOG_FILE"), f)
+    S("ext_service_log_file", rust_str(f, "SERVICE_LOG_FILE"), f)
+    f = "proxy_agent_shared/src/logger.rs"
+    I("log_header_len", regex_int(f, r"fn get_log_header\b.*?\)\s*\[\.\.(\d+)\]", env, "log header cut"), f)
+    f = "proxy_agent_shared/src/logger/rolling_logger.rs"
+    S("rolling_log_extension", regex_str(f, r"log_file_extension:\s*String::from\(\"([^\"]+)\"\)", "log file extension"), f)
+    S("rolling_log_archive_suffix", regex_str(f, r"file_name\.push_str\(&time\.replace\(':',\s*\"\.\"\)\);\s*file_name\.push_str\(\"([^\"]+)\"\)", "archive name suffix"), f)
+    f = "proxy_agent_shared/src/telemetry/event_logger.rs"
+    I("event_queue_bound", regex_int(f, r"ConcurrentQueue::<Event>::bounded\(\s*(\d[\d_]*)\s*\)", env, "event queue bound"), f)
+    f = "proxy_agent/src/proxy/authorization_rules.rs"
+    mm = re.search(r"search_files\(\s*path_dir,\s*r\"\^([A-Za-z0-9_]+)\.\*\\\.([A-Za-z0-9]+)\$\"\s*\)", src(f))
+    if not mm:
+        raise Missing("%s: write_all's search pattern ^<prefix>.*\\.<ext>$ not found" % f)
+    S("rules_dump_search_prefix", mm.group(1), f)
+    S("rules_dump_search_suffix", "." + mm.group(2), f)
+    mm = re.search(r"let new_file_name = format!\(\s*\"([A-Za-z0-9_]+)\{\}-\{\}(\.[A-Za-z0-9]+)\"", src(f))
+    if not mm:
+        raise Missing("%s: write_all's new file name format \"<prefix>{}-{}<.ext>\" not found" % f)
+    S("rules_dump_new_prefix", mm.group(1), f)
+    S("rules_dump_new_suffix", mm.group(2), f)
+    mfc = regex_str("proxy_agent/src/key_keeper.rs", r"rules\.write_all\(\s*&self\.log_dir,\s*([A-Za-z0-9_:]+)\s*\)", "write_all max file count").split("::")[-1]
+    if mfc not in env and not mfc.isdigit():
+        raise Missing("proxy_agent/src/key_keeper.rs: write_all max file count %r is not a known constant" % mfc)
+    I("rules_dump_max_files", int(mfc) if mfc.isdigit() else env[mfc], "proxy_agent/src/key_keeper.rs")
+
     lines = []
     lines.append("(* GENERATED by tools/gen_consts.py from /repo's current sources -- do not edit. *)")
     lines.append("From Coq Require Import List NArith.")
